@@ -105,7 +105,13 @@ func checkC06(x *X, c *Case, strict bool) *Outcome {
 			o.Viol = viol(pk, c, "options_change_errors", fmt.Sprintf("code-block errors differ: default %q, with options %q", e0, e1), describeResp(r0), describeResp(r1))
 			return o
 		}
-		if c.Opts.Memoize {
+		hasLR := false
+		for _, r := range g.Rules {
+			hasLR = hasLR || r.LR != nil
+		}
+		if c.Opts.Memoize && hasLR {
+			o.Nontrivial = o.Nontrivial || ref.Stats.LRGrowth > 0
+		} else if c.Opts.Memoize {
 			// work bound and "evaluated at most once"
 			mc := *c
 			mc.Opts.Stats = true
@@ -141,7 +147,7 @@ func checkC06(x *X, c *Case, strict bool) *Outcome {
 				o.Nontrivial = true
 				o.Tags = append(o.Tags, "memo_hit")
 			}
-			if rs.HasStats && uint64(ref.Stats.Steps) != rs.ExprCnt {
+			if rs.HasStats && uint64(ref.Stats.Steps) != rs.ExprCnt && !hasLR {
 				o.Viol = viol(pk, c, "expr_count", fmt.Sprintf("Stats.ExprCnt = %d, the definition evaluates %d expressions", rs.ExprCnt, ref.Stats.Steps), "", "")
 				return o
 			}
